@@ -125,7 +125,7 @@ class Sensor(BaseGeo, BaseDisplayRepr):
         """Set sensor pixel positions in the local sensor coordinates.
         Must be an array_like, float compatible with shape (..., 3)
         """
-        self._pixel = check_format_input_vector(
+        pixel = check_format_input_vector(
             pix,
             dims=range(1, 20),
             shape_m1=3,
@@ -133,6 +133,12 @@ class Sensor(BaseGeo, BaseDisplayRepr):
             sig_type="array_like (list, tuple, ndarray) with shape (n1, n2, ..., 3) or None",
             allow_None=True,
         )
+        if pixel is not None and pixel.size == 0:
+            raise MagpylibBadUserInput(
+                "Input parameter `pixel` must not be empty."
+                f" Instead received array_like with shape {pixel.shape}."
+            )
+        self._pixel = pixel
 
     @property
     def handedness(self):
@@ -142,7 +148,7 @@ class Sensor(BaseGeo, BaseDisplayRepr):
     @handedness.setter
     def handedness(self, val):
         """Set Sensor handedness in the local object coordinates."""
-        if val not in {"right", "left"}:
+        if not (isinstance(val, str) and val in {"right", "left"}):
             raise MagpylibBadUserInput(
                 "Sensor `handedness` must be either `'right'` or `'left'`"
             )
